@@ -156,7 +156,9 @@ type cnode struct {
 	delivered         int
 	drops             int // drops observed through the metric at the last accounting
 	lastEnd           uint64
-	dropped           []verifier.LogRange // dropped checkpoints not yet named by a SkippedRange
+	dropped           []dropRec // dropped checkpoints not yet named by a SkippedRange
+	trigSeq           int       // checkpoints triggered (queued or dropped) on this instance, in order
+	queued            []int     // trigSeq of the reports queued and not yet delivered (FIFO)
 	contiguous        bool                // no leader change / restart since the last delivered report
 	pendingWrittenMut map[uint64]bool     // indexes this node stored altered (in flight)
 	gen               int
@@ -165,6 +167,13 @@ type cnode struct {
 	snapIdx, snapTerm uint64 // last entry removed by this node's own head truncation ("snapshot")
 	cpFailIn, cpFired int    // IsCheckpointFn error fault (k-th call from now), faults fired
 	vfailSeen         int    // verifier read faults already attributed to a report
+}
+
+// dropRec: a checkpoint whose report was dropped, with its place in the order
+// in which the instance's checkpoints were triggered.
+type dropRec struct {
+	seq int
+	rng verifier.LogRange
 }
 
 type cluster struct {
@@ -192,6 +201,16 @@ type cluster struct {
 	nextData    uint64
 
 	errRun  bool // this run injects inner-store / IsCheckpointFn errors
+	// noQuiet (half of the C18 runs): truncations do not wait for the node's
+	// verifier to be idle, so a DeleteRange meets reports that are queued or held
+	// by a blocked ReportFn. Reports are then not judged against ground truth
+	// (their ranges may legitimately change under them: C16's side condition);
+	// what is decided is C18's accounting: one report or one counted drop per
+	// checkpoint, SkippedRange, transparency, no blocking.
+	noQuiet bool
+
+	inStore bool   // the driver is inside a StoreLogs call of the middleware
+	trig    []byte // 'S' / 'D' per triggerVerify of that call: queued / dropped
 	aborted bool // an oracle of another property failed: the run ends without a verdict
 }
 
@@ -251,6 +270,7 @@ func sameLog(a, b *raft.Log) bool {
 func (c *cluster) newVerifier(n *cnode) {
 	n.gen++
 	n.triggered, n.delivered, n.lastEnd, n.dropped, n.contiguous, n.mismatches = 0, 0, 0, nil, false, 0
+	n.trigSeq, n.queued = 0, nil
 	n.mc = metrics.NewAtomicCollector(verifier.MetricDefinitions)
 	node := n
 	gen := n.gen
@@ -316,6 +336,12 @@ func (c *cluster) onReport(n *cnode, gen int, r verifier.VerificationReport) {
 		cp = c.cps[r.Range.End][len(c.cps[r.Range.End])-1]
 	}
 	c.logf("report n%d range=%s expected=%x written=%x read=%x skipped=%v err=%v", n.id, r.Range, r.ExpectedSum, r.WrittenSum, r.ReadSum, r.SkippedRange, r.Err)
+	if c.noQuiet {
+		c.skippedRangeOracle(n, r)
+		n.lastEnd = r.Range.End
+		n.vfailSeen = n.wrap.firedVRead
+		return
+	}
 	if cp == nil {
 		c.violate("report-wellformed", "report-for-unknown-checkpoint", "node %d delivered a report for range %s, no checkpoint ends there", n.id, r.Range)
 		return
@@ -329,40 +355,8 @@ func (c *cluster) onReport(n *cnode, gen int, r verifier.VerificationReport) {
 		n.lastEnd = r.Range.End
 		return
 	}
-	// skipped-range bookkeeping (C18): every checkpoint that was dropped before
-	// this report's range must be named by its SkippedRange
-	var pend []verifier.LogRange
-	var keep []verifier.LogRange
-	for _, d := range n.dropped {
-		if d.End <= r.Range.Start {
-			pend = append(pend, d)
-		} else {
-			keep = append(keep, d)
-		}
-	}
-	n.dropped = keep
-	if len(pend) > 0 {
-		lo, hi := pend[0].Start, pend[0].End
-		for _, d := range pend {
-			if d.Start < lo {
-				lo = d.Start
-			}
-			if d.End > hi {
-				hi = d.End
-			}
-		}
-		if r.SkippedRange == nil || r.SkippedRange.Start > lo || r.SkippedRange.End < hi {
-			if c.mode == "C18" {
-				c.violate("drop-accounting", "skipped-range-wrong", "node %d: checkpoints covering [%d,%d) were dropped before the report for %s, whose SkippedRange is %v", n.id, lo, hi, r.Range, r.SkippedRange)
-				return
-			}
-		} else {
-			c.probes.Add("skipped_range_named", 1)
-			if n.contiguous && (r.SkippedRange.Start != lo || r.SkippedRange.End != hi) && c.mode == "C18" {
-				c.violate("drop-accounting", "skipped-range-inexact", "node %d: dropped ranges span exactly [%d,%d) but SkippedRange is %v", n.id, lo, hi, r.SkippedRange)
-				return
-			}
-		}
+	if !c.skippedRangeOracle(n, r) {
+		return
 	}
 	n.lastEnd = r.Range.End
 	// ground truth: what this node holds for the range vs what the leader checksummed
@@ -445,6 +439,73 @@ func (c *cluster) onReport(n *cnode, gen int, r verifier.VerificationReport) {
 	}
 }
 
+// skippedRangeOracle (C18): every checkpoint that was dropped before this
+// report's range must be named by its SkippedRange. false = violation raised.
+func (c *cluster) skippedRangeOracle(n *cnode, r verifier.VerificationReport) bool {
+	// "the report following a drop": the first report triggered after it. Reports
+	// are delivered in the order they were queued.
+	rseq := int(^uint(0) >> 1)
+	if len(n.queued) > 0 {
+		rseq = n.queued[0]
+		n.queued = n.queued[1:]
+	}
+	var pend []verifier.LogRange
+	var keep []dropRec
+	for _, d := range n.dropped {
+		if d.seq < rseq {
+			if d.rng.Start < d.rng.End { // an empty range (checkpoint right after a reset) needs no naming
+				pend = append(pend, d.rng)
+			}
+		} else {
+			keep = append(keep, d)
+		}
+	}
+	n.dropped = keep
+	if len(pend) > 0 {
+		lo, hi := pend[0].Start, pend[0].End
+		for _, d := range pend {
+			if d.Start < lo {
+				lo = d.Start
+			}
+			if d.End > hi {
+				hi = d.End
+			}
+		}
+		// every index of a dropped checkpoint's range must be accounted for: named
+		// by SkippedRange, or inside this report's own range (then it was verified
+		// after all: a new leader's range may start below the dropped checkpoint)
+		uncovered := false
+		for i := lo; i < hi && !uncovered; i++ {
+			inSkipped := r.SkippedRange != nil && i >= r.SkippedRange.Start && i < r.SkippedRange.End
+			inRange := i >= r.Range.Start && i < r.Range.End
+			uncovered = !inSkipped && !inRange
+		}
+		if uncovered {
+			if c.mode == "C18" {
+				class := "skipped-range-wrong"
+				if lo < n.lastEnd {
+					// a dropped checkpoint's range begins before the end of the report
+					// delivered last. Within one generation of the log that cannot happen
+					// (a drop follows the queued report, whose range precedes it): a
+					// truncation made the log re-use those indexes while reports of the
+					// truncated suffix were still pending. The verifier infers skips from
+					// the index gap between consecutive reports and cannot see this one.
+					class = "skipped-range-wrong:index-reuse-after-truncation"
+				}
+				c.violate("drop-accounting", class, "node %d: checkpoints covering [%d,%d) were dropped before the report for %s, whose SkippedRange is %v (previous delivered report ended at %d)", n.id, lo, hi, r.Range, r.SkippedRange, n.lastEnd)
+				return false
+			}
+		} else {
+			c.probes.Add("skipped_range_named", 1)
+			if n.contiguous && (r.SkippedRange.Start != lo || r.SkippedRange.End != hi) && c.mode == "C18" {
+				c.violate("drop-accounting", "skipped-range-inexact", "node %d: dropped ranges span exactly [%d,%d) but SkippedRange is %v", n.id, lo, hi, r.SkippedRange)
+				return false
+			}
+		}
+	}
+	return true
+}
+
 func maxu(a, b uint64) uint64 {
 	if a > b {
 		return a
@@ -486,7 +547,44 @@ func fill8(b []byte, seed uint64) {
 	}
 }
 
-func (c *cluster) last(n *cnode) uint64 { return n.mem.last }
+// last is raft's lastIndex: the last log entry, or the snapshot's index when the
+// log holds nothing beyond it.
+func (c *cluster) last(n *cnode) uint64 {
+	if n.mem.last == 0 {
+		return n.snapIdx
+	}
+	return n.mem.last
+}
+
+// lastTerm is the term that goes with last.
+func (c *cluster) lastTerm(n *cnode) uint64 {
+	if n.mem.last == 0 {
+		return n.snapTerm
+	}
+	return n.mem.m[n.mem.last].Term
+}
+
+// commitIndex: the highest index of the leader's log that a majority of the
+// nodes hold with the same term (or have behind their snapshot). Only committed
+// entries may be compacted away ("snapshotted") by a node.
+func (c *cluster) commitIndex() uint64 {
+	L := c.nodes[c.leader]
+	if L.mem.last == 0 {
+		return L.snapIdx
+	}
+	for i := L.mem.last; i >= L.mem.first && i > 0; i-- {
+		cnt := 0
+		for _, o := range c.nodes {
+			if e := o.mem.m[i]; (e != nil && e.Term == L.mem.m[i].Term) || (o.snapIdx >= i && o.mem.first > i) {
+				cnt++
+			}
+		}
+		if cnt*2 > len(c.nodes) {
+			return i
+		}
+	}
+	return L.snapIdx
+}
 
 // waitQuiet waits until every checkpoint stored through node n's current
 // LogStore has been reported or counted as dropped.
@@ -526,8 +624,12 @@ func (c *cluster) storeViaF(n *cnode, batch []*raft.Log) (error, bool) {
 				err = fmt.Errorf("panic")
 			}
 		}()
+		c.trig = c.trig[:0]
+		c.inStore = true
 		err = n.ls.StoreLogs(batch)
+		c.inStore = false
 	}()
+	trig := c.trig
 	if n.wrap.firedStore+n.cpFired > firedBefore {
 		c.fired.Add("inner_error_StoreLogs_or_checkpointFn", 1)
 		switch {
@@ -556,13 +658,20 @@ func (c *cluster) storeViaF(n *cnode, batch []*raft.Log) (error, bool) {
 		after := int(n.mc.Summary().Counters["dropped_reports"])
 		if after > before {
 			c.probes.Add("reports_dropped", int64(after-before))
-			// the channel holds one pending report: of this batch's checkpoints the
-			// last (after-before) ones were dropped
-			for _, l := range cpsInBatch[len(cpsInBatch)-(after-before):] {
-				if len(l.Extensions) >= 24 {
-					st := binary.LittleEndian.Uint64(l.Extensions[8:16])
-					n.dropped = append(n.dropped, verifier.LogRange{Start: st, End: l.Index})
-				}
+		}
+		// which of the batch's checkpoints were queued and which dropped is read off
+		// the verifier's own notifications, in order (the verifier may receive a
+		// queued report between two of them, so "the last k" would be a guess)
+		for i, l := range cpsInBatch {
+			if i >= len(trig) {
+				break // neither queued nor dropped: the accounting oracle decides
+			}
+			n.trigSeq++
+			if trig[i] == 'S' {
+				n.queued = append(n.queued, n.trigSeq)
+			} else if len(l.Extensions) >= 24 {
+				st := binary.LittleEndian.Uint64(l.Extensions[8:16])
+				n.dropped = append(n.dropped, dropRec{seq: n.trigSeq, rng: verifier.LogRange{Start: st, End: l.Index}})
 			}
 		}
 	}
@@ -665,6 +774,11 @@ func (c *cluster) replicate(f *cnode) {
 	}
 	// find the first index where f diverges from the leader (term conflict) or ends
 	next := f.mem.last + 1
+	if f.mem.last == 0 && f.snapIdx > 0 {
+		// a follower whose log was emptied by truncations still has its snapshot:
+		// raft resumes after it, it does not resend what the snapshot covers
+		next = f.snapIdx + 1
+	}
 	if f.mem.last > L.mem.last {
 		next = L.mem.last + 1
 	}
@@ -689,27 +803,36 @@ func (c *cluster) replicate(f *cnode) {
 	if next < L.mem.first {
 		// follower is behind the leader's snapshot: install = wipe and restart from leader's first
 		if f.mem.last != 0 {
-			c.waitQuiet(f)
+			if !c.noQuiet {
+				c.waitQuiet(f)
+			}
 			c.useNode(f)
 			c.disarmRest(f, 0, ^uint64(0))
 			if !c.deleteVia(f, f.mem.first, f.mem.last) {
 				return
 			}
+			// the whole log is replaced: dropped checkpoints of the old one can no
+			// longer be named
+			f.dropped = nil
+			c.logf("follower n%d wiped for snapshot install", f.id)
 		}
 		next = L.mem.first
 	}
 	if next <= f.mem.last {
-		// conflicting suffix: truncate it first (never while a verification of it may run)
-		c.waitQuiet(f)
+		// conflicting suffix: truncate it first (never while a verification of it may
+		// run, except in C18's noQuiet runs where only the accounting is judged)
+		if !c.noQuiet {
+			c.waitQuiet(f)
+		}
 		c.useNode(f)
 		if !c.deleteVia(f, next, f.mem.last) {
 			return
 		}
 		c.disarmRest(f, next, ^uint64(0))
 		// dropped checkpoints of the truncated generation can no longer be named
-		var kept []verifier.LogRange
+		var kept []dropRec
 		for _, d := range f.dropped {
-			if d.End < next {
+			if d.rng.End < next {
 				kept = append(kept, d)
 			}
 		}
@@ -842,14 +965,8 @@ func (c *cluster) changeLeader() {
 	for _, n := range c.nodes {
 		cnt := 0
 		for _, o := range c.nodes {
-			lt, ot := uint64(0), uint64(0)
-			if n.mem.last != 0 {
-				lt = n.mem.m[n.mem.last].Term
-			}
-			if o.mem.last != 0 {
-				ot = o.mem.m[o.mem.last].Term
-			}
-			if lt > ot || (lt == ot && n.mem.last >= o.mem.last) {
+			lt, ot := c.lastTerm(n), c.lastTerm(o)
+			if lt > ot || (lt == ot && c.last(n) >= c.last(o)) {
 				cnt++
 			}
 		}
@@ -901,8 +1018,22 @@ func (c *cluster) headTruncate(n *cnode) {
 	if n.mem.last == 0 || n.mem.last-n.mem.first < 2 {
 		return
 	}
-	c.waitQuiet(n)
-	k := 1 + uint64(c.tp.Choose(int(n.mem.last-n.mem.first)))
+	if !c.noQuiet {
+		c.waitQuiet(n)
+	}
+	// only committed entries are ever compacted away
+	ci := c.commitIndex()
+	if e := n.mem.m[ci]; ci < n.mem.first || e == nil || c.nodes[c.leader].mem.m[ci] == nil || e.Term != c.nodes[c.leader].mem.m[ci].Term {
+		return
+	}
+	span := int(n.mem.last - n.mem.first)
+	if int(ci-n.mem.first)+1 < span {
+		span = int(ci-n.mem.first) + 1
+	}
+	if span < 1 {
+		return
+	}
+	k := 1 + uint64(c.tp.Choose(span))
 	c.useNode(n)
 	boundary := n.mem.m[n.mem.first+k-1]
 	c.disarmRest(n, n.mem.first, n.mem.first+k-1)
@@ -971,6 +1102,16 @@ func runCluster(prop string, seed uint64, cfg Config, plan Plan, tp *tape.Tape) 
 	c.sim = sched.New(tp)
 	c.sim.StickNum, c.sim.StickDen = cfg.StickNum, cfg.StickDen
 	c.sim.MaxSteps = 60000
+	c.sim.OnHook = func(t *sched.Task, point string) {
+		if c.inStore && t != nil && t.Name == "driver" {
+			switch point {
+			case "verifier.sent":
+				c.trig = append(c.trig, 'S')
+			case "verifier.dropped":
+				c.trig = append(c.trig, 'D')
+			}
+		}
+	}
 	c.sim.Go("driver", nil, func() { c.run(cfg) })
 	res := c.sim.Wait()
 	st := &RunStats{Steps: c.sim.Steps, Contended: c.sim.Contended, Sig: c.sim.Sig, Fired: c.fired, Probes: c.probes, Points: Counters{}, Gens: 1, Ops: 1}
@@ -1008,6 +1149,7 @@ func (c *cluster) run(cfg Config) {
 	c.leader = c.tp.Choose(nn)
 	// a third of the runs inject errors of the inner store / IsCheckpointFn
 	c.errRun = c.tp.Choose(3) == 0
+	c.noQuiet = c.mode == "C18" && c.tp.Choose(2) == 0
 	nchoices := 14
 	if c.errRun {
 		nchoices = 16
@@ -1026,7 +1168,7 @@ func (c *cluster) run(cfg Config) {
 		case 10:
 			c.restart(c.nodes[c.tp.Choose(nn)])
 		case 11:
-			if c.mode != "C18" {
+			if c.mode != "C18" || c.noQuiet {
 				c.headTruncate(c.nodes[c.tp.Choose(nn)])
 			}
 		case 12:
